@@ -250,6 +250,13 @@ def _execute(wd, sc):
         if empty:
             V.append({"sig": f"C06.S|run returned with a level that holds no simulated sample|{cls}", "oracle": "S",
                       "detail": {"levels_without_samples": empty, "Nl": final_nl}})
+        if sc.get("rates") and sc["rates"][0] is not None and sc.get("criteria") == "giles":
+            if sc["rates"][1] is None:
+                wd.probes["c06.only_the_weak_rate_given"] += 1
+            other = [c for c in crits if abs(float(c[1]) - float(sc["rates"][0])) > 1e-12]
+            if other:
+                V.append({"sig": f"C06.S|the bias test was run with another weak rate than the configured one|{'only-alpha-given' if sc['rates'][1] is None else 'all-rates-given'}|{cls}",
+                          "oracle": "S", "detail": {"configured_alpha": sc["rates"][0], "alpha_used": float(other[0][1])}})
         if not last_true and L_final != maximum_level:
             V.append({"sig": f"C06.S|run returned although the bias test had not passed and the maximum level was not reached|{cls}",
                       "oracle": "S", "detail": {"final_level": L_final, "maximum_level": maximum_level,
